@@ -66,7 +66,7 @@ class G:
             if r < 0.75:
                 return self.named()
             if r < 0.9:
-                return T.LiteralType([rng.choice(["a", "b c", 1, -2, True, False, 1.5]) for _ in range(rng.randrange(1, 4))])
+                return T.LiteralType([rng.choice(["a", "b c", 1, -2, True, False, 1.5, 'q"t', "b\\s", "l1\nl2", "t\tb", "*/"]) for _ in range(rng.randrange(1, 4))])
             return T.TypeVarType(rng.choice(["T", "T_co", "in_"]))
         k = rng.randrange(9)
         sub = lambda: self.ty(depth - 1)  # noqa: E731
@@ -106,7 +106,7 @@ class G:
     # ---- pieces ----
     def pdoc(self) -> ParameterDocstring:
         rng = self.rng
-        return ParameterDocstring(type=None, default_value="", description=rng.choice(["", "", "About it.", "Line one.\nLine two.\n\nLast."]))
+        return ParameterDocstring(type=None, default_value="", description=rng.choice(["", "", "About it.", "Line one.\nLine two.\n\nLast.", "Glob a/*/b and **/ too.", "*/"]))
 
     def params(self, fid: str, receiver: str | None) -> list[Parameter]:
         rng = self.rng
@@ -127,7 +127,8 @@ class G:
             dv = None
             opt = False
             if kind in (ParameterAssignment.POSITION_ONLY, ParameterAssignment.POSITION_OR_NAME, ParameterAssignment.NAME_ONLY) and rng.random() < 0.4:
-                dv = rng.choice([1, -7, 1.5, '"txt"', True, False, None, UnknownValue(), 12345678901234567890, '""'])
+                dv = rng.choice([1, -7, 1.5, '"txt"', True, False, None, UnknownValue(), 12345678901234567890, '""',
+                                 '"say "hi""', '"C:\\dir\\"', '"two\nlines"', '"tab\there"', '"*/"', '"\r"', '"\\"', '"""'])     # always "..."-wrapped, as the analyzer builds them
                 opt = True
             ps.append(Parameter(f"{fid}/{n}", n, opt, dv, kind, self.pdoc(), ty))
         return ps
@@ -154,9 +155,9 @@ class G:
             tvs = [T.TypeVarType(rng.choice(["T", "T_co", "in_"]), self.ty(1) if rng.random() < 0.3 else None)]
         rdocs = []
         if rng.random() < 0.3:
-            rdocs = [ResultDocstring(type=None, description=rng.choice(["", "The result."]), name=rng.choice(["", "named_res"]))
+            rdocs = [ResultDocstring(type=None, description=rng.choice(["", "The result.", "All of x/*/y.\n*/"]), name=rng.choice(["", "named_res"]))
                      for _ in range(rng.randrange(1, 3))]
-        doc = FunctionDocstring(description=rng.choice(["", "", f"Doc of {n}.", f"Doc of {n}.\n\nMore."]), full_docstring="",
+        doc = FunctionDocstring(description=rng.choice(["", "", f"Doc of {n}.", f"Doc of {n}.\n\nMore.", f"Doc of {n} with */ inside.\n/* and */"]), full_docstring="",
                                 examples=rng.choice([[], [], [">>> a = 1\n>>> b >>> 2\n... c\nout"]]))
         return Function(id=fid, name=n, docstring=doc, is_public=rng.random() < 0.85, is_static=static, is_class_method=classm,
                         is_property=prop, result_docstrings=rdocs, type_var_types=tvs, results=results,
@@ -167,7 +168,7 @@ class G:
         n = name or self.name("cls", private=private)
         cid = f"{owner_id}/{n}"
         c = Class(id=cid, name=n, superclasses=list(supers or []), is_public=(not n.startswith("_")) and rng.random() < 0.95,
-                  docstring=ClassDocstring(description=rng.choice(["", f"Doc of class {n}."])), reexported_by=reexported_by or [])
+                  docstring=ClassDocstring(description=rng.choice(["", f"Doc of class {n}.", f"Doc of class {n}: ***/ **/"])), reexported_by=reexported_by or [])
         self.classes.append(c)
         used = set()
         for _ in range(rng.randrange(0, 4)):
